@@ -1,0 +1,288 @@
+//go:build verif
+
+package deflate
+
+// Contracts for the gocv verifier (/verif/DESIGN.md). This file contains only
+// comments; it is compiled only with the build tag "verif".
+//
+// Syntax: //@ func NAME, then requires / ensures / modifies / loop clauses.
+// Clause heads may carry property tags and a label: ensures[C12 fresh] ...
+
+// ---------------------------------------------------------------------------
+// BitBuf
+// ---------------------------------------------------------------------------
+
+//@ pure bufOK(b *BitBuf) bool = 0 <= b.idx && b.idx <= len(b.output) && 0 <= b.bitLen && b.bitLen <= 64 && (b.bitLen == 64 || b.bits>>uint64(b.bitLen) == 0)
+//@ pure nbits(b *BitBuf) int = 8*b.idx + b.bitLen
+//@ pure bufZero(b *BitBuf) bool = b.idx == 0 && b.bits == 0 && b.bitLen == 0
+
+//@ func (*BitBuf).reset
+//@   modifies b.idx, b.bits, b.bitLen
+//@   ensures[C12 zero] bufZero(b)
+
+//@ func (*BitBuf).WriteBit
+//@   requires bufOK(b) && b.bitLen < 64 && count <= 16 && uint64(code) < 1<<count
+//@   requires b.bitLen + int(count) <= 64 || b.idx + 8 <= len(b.output)
+//@   modifies b.bits, b.bitLen, b.idx, b.output[*]
+//@   ensures[C01 C10 append] nbits(b) == old(nbits(b)) + int(count)
+//@   ensures bufOK(b) && b.bitLen < 64 || (b.bitLen == 64 && old(b.bitLen) + int(count) == 64)
+//@   ensures bufOK(b)
+//@   ensures old(b.bitLen) + int(count) <= 64 ==> b.idx == old(b.idx)
+//@   ensures b.idx <= old(b.idx) + 8
+
+//@ func (*BitBuf).flushLastByte
+//@   requires bufOK(b) && b.idx + 8 <= len(b.output)
+//@   modifies b.bits, b.bitLen, b.idx, b.output[*]
+//@   ensures[C10 aligned] b.bitLen == 0 && b.bits == 0
+//@   ensures b.idx == old(b.idx) + (old(b.bitLen)+7)/8
+//@   ensures bufOK(b)
+//@   loop 1 invariant 0 <= b.idx && b.idx - old(b.idx) <= 8 && b.bitLen <= 64 && b.bitLen == old(b.bitLen) - 8*(b.idx - old(b.idx)) && b.idx >= old(b.idx) && old(b.bitLen) > 0 && b.bitLen > -8
+//@   loop 1 decreases b.bitLen
+
+//@ func (*BitBuf).writeEmptyBlock
+//@   requires bufOK(b) && b.bitLen < 64 && b.idx + 20 <= len(b.output)
+//@   modifies b.bits, b.bitLen, b.idx, b.output[*]
+//@   ensures[C10 marker] b.bitLen == 0 && b.bits == 0 && bufOK(b)
+//@   ensures[C10 marker-bytes] b.idx >= 4 && b.output[b.idx-4] == 0 && b.output[b.idx-3] == 0 && b.output[b.idx-2] == 255 && b.output[b.idx-1] == 255
+//@   ensures b.idx == old(b.idx) + (old(b.bitLen)+3+7)/8 + 4
+
+//@ func (*BitBuf).writeFinalEmptyBlock
+//@   requires bufOK(b) && b.bitLen < 64 && b.idx + 20 <= len(b.output)
+//@   modifies b.bits, b.bitLen, b.idx, b.output[*]
+//@   ensures[C01 final-marker] b.bitLen == 0 && b.bits == 0 && bufOK(b)
+//@   ensures b.idx == old(b.idx) + (old(b.bitLen)+3+7)/8 + 4
+
+//@ func (*BitBuf).Sync
+//@   requires bufOK(b) && b.idx + 8 <= len(b.output)
+//@   modifies b.bits, b.bitLen, b.idx, b.output[*]
+//@   ensures[C01 same-bits] nbits(b) == old(nbits(b))
+//@   ensures bufOK(b) && b.bitLen < 8
+//@   loop 1 invariant 0 <= i && i <= bytes && b.idx == old(b.idx) && b.bitLen == old(b.bitLen) && b.bits == old(b.bits) >> uint64(8*i) && bytes == old(b.bitLen)/8 && rest == old(b.bitLen)%8
+//@   loop 1 decreases bytes - i
+
+// ---------------------------------------------------------------------------
+// histogram, match-finder contexts
+// ---------------------------------------------------------------------------
+
+//@ pure histZero(h *histogram) bool = (forall i :: 0 <= i && i < 31 ==> h.distanceCodes[i] == 0) && (forall j :: 0 <= j && j < 513 ==> h.literalCodes[j] == 0)
+
+//@ func (*histogram).reset
+//@   modifies *h
+//@   ensures[C12 zero] histZero(h)
+//@   loop 1 invariant -1 <= rangeindex && rangeindex < 31 && (forall k :: 0 <= k && k <= rangeindex ==> h.distanceCodes[k] == 0)
+//@   loop 2 invariant -1 <= rangeindex && rangeindex < 513 && (forall k :: 0 <= k && k < 31 ==> h.distanceCodes[k] == 0) && (forall k :: 0 <= k && k <= rangeindex ==> h.literalCodes[k] == 0)
+
+//@ pure l1Zero(c *level1context) bool = (forall i :: 0 <= i && i < 4096 ==> c.table[i] == 0) && histZero(&c.hist)
+//@ pure l2Zero(c *level2context) bool = (forall i :: 0 <= i && i < 32768 ==> c.table[i] == 0) && histZero(&c.hist)
+
+//@ func (*level1context).reset
+//@   modifies c.table, c.hist
+//@   ensures[C12 reset-zero] l1Zero(c)
+//@   loop 1 invariant -1 <= rangeindex && rangeindex < 4096 && (forall k :: 0 <= k && k <= rangeindex ==> c.table[k] == 0)
+
+//@ func (*level2context).reset
+//@   modifies c.table, c.hist
+//@   ensures[C12 reset-zero] l2Zero(c)
+//@   loop 1 invariant -1 <= rangeindex && rangeindex < 32768 && (forall k :: 0 <= k && k <= rangeindex ==> c.table[k] == 0)
+
+// ---------------------------------------------------------------------------
+// dynCompressor (levels 1, 2)
+// ---------------------------------------------------------------------------
+
+// c.hist is the interior pointer into the match-finder context (NewDynCompressor: c.hist = c.lz77.histogram()).
+//@ shape dynCompressor.hist = typeis(self.lz77, *level1context) ? &self.lz77.(*level1context).hist : &self.lz77.(*level2context).hist
+
+//@ pure lzShape(l lz77compressor, w int) bool = l != nil && (typeis(l, *level1context) ==> (l.(*level1context).windowLevel == 12 && w == 4096) || (l.(*level1context).windowLevel == 15 && w == 32768)) && (typeis(l, *level2context) ==> (l.(*level2context).windowLevel == 12 && w == 4096) || (l.(*level2context).windowLevel == 15 && w == 32768))
+//@ pure lzZero(l lz77compressor) bool = (typeis(l, *level1context) ==> l1Zero(l.(*level1context))) && (typeis(l, *level2context) ==> l2Zero(l.(*level2context)))
+//@ pure histAlias(c *dynCompressor) bool = c.hist == (typeis(c.lz77, *level1context) ? &c.lz77.(*level1context).hist : &c.lz77.(*level2context).hist)
+
+// dynShape: facts that never change after construction (they survive a failed write).
+//@ pure dynShape(c *dynCompressor) bool = (c.windowSize == 4096 || c.windowSize == 32768) && len(c.buffer) == 2*c.windowSize+261 && cap(c.tokens) >= 32768 && len(c.buf.output) == 8192 && c.hdr != nil && c.litGen != nil && c.distGen != nil && lzShape(c.lz77, c.windowSize) && histAlias(c)
+// dynOK: representation invariant between public operations (no sticky error).
+//@ pure dynOK(c *dynCompressor) bool = dynShape(c) && c.w != nil && 0 <= c.idx && c.idx <= c.end && c.end <= 2*c.windowSize+258 && c.idx <= c.processed && c.processed <= 4611686018427387904 && len(c.tokens) < 32767 && bufOK(&c.buf) && c.buf.idx == 0 && c.buf.bitLen < 64
+// dynFresh: the state NewDynCompressor establishes and Reset must re-establish.
+//@ pure dynFresh(c *dynCompressor) bool = dynOK(c) && c.idx == 0 && c.end == 0 && c.processed == 0 && len(c.tokens) == 0 && bufZero(&c.buf) && lzZero(c.lz77)
+
+//@ func buildLZ77
+//@   requires windowSize == 4096 || windowSize == 32768
+//@   modifies nothing
+//@   ensures[C19 win] lzShape(result, windowSize) && lzZero(result)
+//@   ensures[C01 dispatch] (level == 1) == typeis(result, *level1context)
+
+//@ func NewDynCompressor
+//@   requires w != nil && (windowSize == 4096 || windowSize == 32768)
+//@   modifies nothing
+//@   ensures[C12 C16 ctor-inv] result != nil && dynFresh(result) && result.w == w
+//@   ensures[C19 win] result.windowSize == windowSize
+
+//@ func (*dynCompressor).Reset
+//@   requires dynShape(w) && under != nil
+//@   modifies *w, **w.lz77
+//@   ensures[C12 C16 fresh] dynFresh(w) && w.w == under
+//@   ensures[C19 win] w.windowSize == old(w.windowSize)
+
+//@ func (*dynCompressor).Accumulate
+//@   requires dynOK(c)
+//@   modifies c.buffer[*], c.idx, c.end
+//@   ensures[C09 C16 acc-inv] dynOK(c)
+//@   ensures[C09 copy] 0 <= n && n <= len(data)
+//@   ensures[C09 trigger-iff-full] trigger == (c.end == 2*c.windowSize+258)
+//@   ensures[C09 progress] n == len(data) || trigger
+
+//@ func (*dynCompressor).compressBlock
+//@   trusted "not yet verified: match finding and block encoding below this call (lz77, genHuffCodes, header, token encoding)"
+//@   requires dynOK(w)
+//@   modifies **w, extWrites
+//@   ensures dynShape(w) && w.w == old(w.w) && w.windowSize == old(w.windowSize)
+//@   ensures err == nil ==> dynOK(w)
+//@   ensures err == nil && flush ==> w.idx == w.end && len(w.tokens) == 0
+//@   ensures err == nil && flush && finalBlock ==> w.buf.bitLen == 0
+
+//@ func (*dynCompressor).Compress
+//@   requires dynOK(w)
+//@   modifies **w, extWrites
+//@   ensures[C14 C16] dynShape(w) && w.w == old(w.w) && w.windowSize == old(w.windowSize)
+//@   ensures[C14 C16] err == nil ==> dynOK(w)
+
+//@ func (*dynCompressor).Flush
+//@   requires dynOK(w)
+//@   modifies **w, extWrites
+//@   ensures[C14 C16] dynShape(w) && w.w == old(w.w) && w.windowSize == old(w.windowSize)
+//@   ensures[C10 C16 clean] err == nil ==> dynOK(w) && w.idx == w.end && len(w.tokens) == 0 && w.buf.bitLen == 0
+
+//@ func (*dynCompressor).Close
+//@   requires dynOK(c)
+//@   modifies **c, extWrites
+//@   ensures[C14 C16] dynShape(c) && c.w == old(c.w) && c.windowSize == old(c.windowSize)
+//@   ensures[C01 C16 finals] result == nil ==> dynOK(c) && c.idx == c.end && len(c.tokens) == 0 && c.buf.bitLen == 0
+
+// ---------------------------------------------------------------------------
+// huffmanOnly (level -2)
+// ---------------------------------------------------------------------------
+
+//@ pure huffShape(h *huffmanOnly) bool = len(h.buffer) == 65536 && h.max == 65536 && len(h.buf.output) == 8192 && h.hdr != nil && h.litGen != nil
+//@ pure huffOK(h *huffmanOnly) bool = huffShape(h) && h.w != nil && 0 <= h.offset && h.offset <= h.max && bufOK(&h.buf) && h.buf.idx == 0 && h.buf.bitLen < 64
+//@ pure huffFresh(h *huffmanOnly) bool = huffOK(h) && h.offset == 0 && bufZero(&h.buf)
+
+//@ func NewHuffmanOnly
+//@   requires w != nil
+//@   modifies nothing
+//@   ensures[C12 C16 ctor-inv] result != nil && huffFresh(result) && result.w == w
+
+//@ func (*huffmanOnly).Reset
+//@   requires huffShape(h) && w != nil
+//@   modifies h.w, h.buf, h.offset
+//@   ensures[C12 C16 fresh] huffFresh(h) && h.w == w
+
+//@ func (*huffmanOnly).Accumulate
+//@   requires huffOK(h)
+//@   modifies h.buffer[*], h.offset
+//@   ensures[C09 C16 acc-inv] huffOK(h)
+//@   ensures[C09 copy] 0 <= n && n <= len(data)
+//@   ensures[C09 trigger-iff-full] trigger == (h.offset == h.max)
+//@   ensures[C09 progress] n == len(data) || trigger
+
+//@ func (*huffmanOnly).encodeBlock
+//@   trusted "not yet verified: byte histogram, code generation, header and byte encoding below this call"
+//@   requires huffOK(h)
+//@   modifies h.hist, h.buf, h.offset, h.buffer[*], **h.hdr, **h.litGen, extWrites, h.buf.output[*]
+//@   ensures huffShape(h) && h.w == old(h.w)
+//@   ensures result == nil ==> huffOK(h) && h.offset == 0
+//@   ensures result == nil && final ==> h.buf.bitLen == 0
+
+//@ func (*huffmanOnly).Compress
+//@   requires huffOK(h)
+//@   modifies h.hist, h.buf, h.offset, h.buffer[*], **h.hdr, **h.litGen, extWrites, h.buf.output[*]
+//@   ensures[C14 C16] huffShape(h) && h.w == old(h.w)
+//@   ensures[C14 C16] result == nil ==> huffOK(h) && h.offset == 0
+
+//@ func (*huffmanOnly).Flush
+//@   requires huffOK(h)
+//@   modifies h.hist, h.buf, h.offset, h.buffer[*], **h.hdr, **h.litGen, extWrites, h.buf.output[*]
+//@   ensures[C14 C16] huffShape(h) && h.w == old(h.w)
+//@   ensures[C10 C16 clean] err == nil ==> huffOK(h) && h.offset == 0 && h.buf.bitLen == 0
+
+//@ func (*huffmanOnly).Close
+//@   requires huffOK(h)
+//@   modifies h.w, h.hist, h.buf, h.offset, h.buffer[*], **h.hdr, **h.litGen, extWrites, h.buf.output[*]
+//@   ensures[C14 C16] huffShape(h)
+//@   ensures[C01 C16 finals] err == nil ==> h.offset == 0 && h.buf.bitLen == 0
+
+// ---------------------------------------------------------------------------
+// Writer
+// ---------------------------------------------------------------------------
+
+//@ pure lcShape(lc LevelCompressor) bool = (typeis(lc, *dynCompressor) ==> dynShape(lc.(*dynCompressor))) && (typeis(lc, *huffmanOnly) ==> huffShape(lc.(*huffmanOnly)))
+//@ pure lcOK(lc LevelCompressor) bool = (typeis(lc, *dynCompressor) ==> dynOK(lc.(*dynCompressor))) && (typeis(lc, *huffmanOnly) ==> huffOK(lc.(*huffmanOnly)))
+//@ pure lcFresh(lc LevelCompressor) bool = (typeis(lc, *dynCompressor) ==> dynFresh(lc.(*dynCompressor))) && (typeis(lc, *huffmanOnly) ==> huffFresh(lc.(*huffmanOnly)))
+//@ pure wShape(w *Writer) bool = (w.w != nil) != (w.lc != nil) && lcShape(w.lc)
+// wOK: representation invariant of the Writer. While no error is recorded the level compressor is in a good state.
+//@ pure wOK(w *Writer) bool = wShape(w) && (w.err == nil ==> lcOK(w.lc)) && (w.w != nil ==> w.err == nil)
+//@ pure wClosed(w *Writer) bool = w.err == errWriterClosed || (w.w != nil && w.w.sclosed)
+// the error a stuck Writer reports
+//@ pure wStuck(w *Writer) bool = w.err != nil || (w.w != nil && w.w.serr != nil)
+
+//@ func (*Writer).Write
+//@   requires wOK(w)
+//@   modifies w.err, **w.lc, *w.w, extWrites
+//@   ensures[C16 inv] wOK(w)
+//@   ensures[C14 C16 sticky-in] old(w.err) != nil ==> err == old(w.err) && n == 0 && extWrites == old(extWrites) && w.err == old(w.err)
+//@   ensures[C14 sticky-in-std] old(w.err) == nil && w.w != nil && old(w.w.serr) != nil ==> err == old(w.w.serr) && extWrites == old(extWrites)
+//@   ensures[C14 sticky-out] err != nil && w.w == nil ==> w.err == err
+//@   ensures[C14 sticky-out-std] err != nil && old(w.err) == nil && w.w != nil && !old(w.w.sclosed) ==> w.w.serr == err
+//@   ensures[C16 closed] old(wClosed(w)) ==> err != nil && extWrites == old(extWrites)
+//@   ensures[C09 C16 empty-noop] len(data) == 0 && old(w.err) == nil && w.w == nil ==> err == nil && extWrites == old(extWrites)
+//@   ensures[C16 count] err == nil ==> n == len(data)
+//@   loop 1 invariant w.err == nil && w.w == nil && wShape(w) && lcOK(w.lc) && 0 <= num && num <= n && n == len(data) && same(w.lc) && same(w.w)
+//@   loop 1 invariant len(data) == 0 ==> extWrites == old(extWrites)
+
+//@ func (*Writer).Flush
+//@   requires wOK(w)
+//@   modifies w.err, **w.lc, *w.w, extWrites
+//@   ensures[C16 inv] wOK(w)
+//@   ensures[C14 C16 sticky-in] old(w.err) != nil ==> err == old(w.err) && extWrites == old(extWrites) && w.err == old(w.err)
+//@   ensures[C14 sticky-in-std] old(w.err) == nil && w.w != nil && old(w.w.serr) != nil ==> err == old(w.w.serr) && extWrites == old(extWrites)
+//@   ensures[C14 sticky-out] err != nil && w.w == nil ==> w.err == err
+//@   ensures[C14 sticky-out-std] err != nil && old(w.err) == nil && w.w != nil && !old(w.w.sclosed) ==> w.w.serr == err
+//@   ensures[C16 closed] old(wClosed(w)) ==> err != nil && extWrites == old(extWrites)
+
+//@ func (*Writer).Close
+//@   requires wOK(w)
+//@   modifies w.err, **w.lc, *w.w, extWrites
+//@   ensures[C16 inv] wOK(w)
+//@   ensures[C16 idempotent-close] old(wClosed(w)) ==> err == nil && extWrites == old(extWrites) && wClosed(w)
+//@   ensures[C14 C16 sticky-in] old(w.err) != nil && old(w.err) != errWriterClosed ==> err == old(w.err) && extWrites == old(extWrites) && w.err == old(w.err)
+//@   ensures[C14 sticky-in-std] old(w.err) == nil && w.w != nil && old(w.w.serr) != nil && !old(w.w.sclosed) ==> err == old(w.w.serr) && extWrites == old(extWrites)
+//@   ensures[C14 sticky-out] err != nil && w.w == nil ==> w.err == err
+//@   ensures[C14 sticky-out-std] err != nil && old(w.err) == nil && w.w != nil ==> w.w.serr == err
+//@   ensures[C16 closes] err == nil ==> wClosed(w)
+
+//@ func (*Writer).Reset
+//@   requires wShape(w) && under != nil
+//@   modifies w.err, **w.lc, *w.w
+//@   ensures[C12 C16 fresh] wOK(w) && w.err == nil && !wClosed(w) && !wStuck(w) && (w.lc != nil ==> lcFresh(w.lc))
+//@   ensures[C12 same-kind] same(w.w) && same(w.lc)
+
+//@ func NewWriter
+//@   requires under != nil
+//@   modifies nothing
+//@   ensures[C16 level-valid] (err != nil) == (level < -2 || level > 9)
+//@   ensures[C16 ctor-inv] err == nil ==> w != nil && wOK(w) && w.err == nil && !wClosed(w) && !wStuck(w) && (w.lc != nil ==> lcFresh(w.lc))
+//@   ensures[C01 dispatch] err == nil ==> (typeis(w.lc, *huffmanOnly) == (level == -2)) && (typeis(w.lc, *dynCompressor) == (level == -1 || level == 1 || level == 2)) && ((w.w != nil) == (level == 0 || level >= 3))
+//@   ensures[C19 win32k] err == nil && typeis(w.lc, *dynCompressor) ==> w.lc.(*dynCompressor).windowSize == 32768
+//@   ensures err != nil ==> w == nil
+
+//@ func NewWriterwWith4KWindow
+//@   requires under != nil
+//@   modifies nothing
+//@   ensures[C16 ctor-inv] err == nil ==> w != nil && wOK(w) && w.err == nil && !wClosed(w) && !wStuck(w) && (w.lc != nil ==> lcFresh(w.lc))
+//@   ensures[C01 dispatch4k] err == nil ==> (typeis(w.lc, *huffmanOnly) == (level == -2)) && ((w.w != nil) == (level == 0))
+//@   ensures[C19 win4k] err == nil && typeis(w.lc, *dynCompressor) ==> w.lc.(*dynCompressor).windowSize == 4096
+//@   ensures err != nil ==> w == nil
+
+//@ func NewWriterDict
+//@   requires under != nil
+//@   modifies extWrites
+//@   ensures[C16 level-valid] (err != nil) == (level < -2 || level > 9)
+//@   ensures[C16 ctor-inv] err == nil ==> w != nil && wOK(w) && w.err == nil && !wClosed(w) && !wStuck(w)
+//@   ensures[C01 dict-delegates] err == nil && dict != nil ==> w.w != nil && w.lc == nil
